@@ -266,17 +266,20 @@ func processDuplicates(values Values, traits TraitDescs, enumTypeName string) {
 
 	for _, duplicates := range data {
 		primary, safe := duplicates.getPrimary()
-		if safe {
+		if len(duplicates) < 2 {
 			continue
 		}
-		// warn about potentially unsafe duplicates.
-		log.Printf("[WARN] - Definitions `%v` of `%s` share the same value `%d`. "+
-			"`%s` will be arbitrarily chosen as the primary value when stringifying enums. "+
-			"If this is undesirable, please mark values other than the intended primary "+
-			"as Deprecated.",
-			duplicates.stringList(), enumTypeName, primary.Value, primary.Name)
+		if !safe {
+			// warn about potentially unsafe duplicates.
+			log.Printf("[WARN] - Definitions `%v` of `%s` share the same value `%d`. "+
+				"`%s` will be arbitrarily chosen as the primary value when stringifying enums. "+
+				"If this is undesirable, please mark values other than the intended primary "+
+				"as Deprecated.",
+				duplicates.stringList(), enumTypeName, primary.Value, primary.Name)
+		}
 
-		// correct any traits.
+		// correct any traits: only the primary definition of a value keeps its trait
+		// rows (two rows for one value would emit the same `case` twice).
 		for i, td := range traits {
 			traits[i].Traits = slices.DeleteFunc(td.Traits, func(t TraitInstance) bool {
 				return t.OwningValue.Value == primary.Value && t.OwningValue.Name != primary.Name
